@@ -55,6 +55,9 @@ pub struct Session {
     /// crash injection: SIGKILL the plugin right after applying the effect of the k-th
     /// non-getinfo RPC of this session, before replying
     pub kill_at_rpc: Option<usize>,
+    /// the connection carrying the k-th RPC dies after lightningd executed the command (no reply)
+    pub drop_at_rpc: Option<usize>,
+    pub dropped: bool,
     pub rpc_count: usize,
     pub killed: bool,
     /// scripted pay for the crash sessions: (status to answer, part ends complete?)
@@ -192,7 +195,14 @@ impl Session {
             child,
             stdin,
             events: rx,
-            node: Node::new(height, NODE_ID),
+            node: {
+                // lightningd numbers the single part of an unsplit pay 0 and the parts of a split one
+                // from 1; two sessions in three use the former
+                static SESSIONS: std::sync::atomic::AtomicU64 = std::sync::atomic::AtomicU64::new(0);
+                let mut n = Node::new(height, NODE_ID);
+                n.first_partid_zero = SESSIONS.fetch_add(1, std::sync::atomic::Ordering::Relaxed) % 3 != 2;
+                n
+            },
             dir: dir.clone(),
             out_buf: vec![],
             docs: vec![],
@@ -209,6 +219,8 @@ impl Session {
             rng: Rng::new(n + 1),
             started: Instant::now(),
             kill_at_rpc: None,
+            drop_at_rpc: None,
+            dropped: false,
             rpc_count: 0,
             killed: false,
             pay_script: None,
@@ -333,6 +345,24 @@ impl Session {
                 return;
             }
         }
+        if method != "getinfo" && self.drop_at_rpc.is_some() && self.drop_at_rpc == Some(self.rpc_count.wrapping_sub(1)) && !self.dropped {
+            self.dropped = true;
+            match method.as_str() {
+                "datastore" => {
+                    let _ = self.node.datastore(&params);
+                    self.check_state("datastore(reply lost)");
+                }
+                "pay" => {
+                    // handled below like a "pay-drop" payment: command accepted, connection gone
+                    self.stuck.push((invoice_hash_hex(&params), "pay-drop"));
+                }
+                _ => {}
+            }
+            if method != "pay" {
+                let _ = stream.shutdown(std::net::Shutdown::Both);
+                return;
+            }
+        }
         if method == "pay" {
             let hx = invoice_hash_hex(&params);
             if let Some((_, at)) = self.stuck.iter().find(|(h, _)| *h == hx).cloned() {
@@ -349,7 +379,7 @@ impl Session {
                     // the pay command keeps running (no part yet) and is answered later by the test
                     self.node.parts.pop();
                     self.slow_pays.push((stream, id.clone(), pid, hx.clone()));
-                } else if at == "pay-drop" {
+                } else if at == "pay-drop" || at == "pay-drop-wait-drop" {
                     // the connection dies after lightningd accepted the command; the command has
                     // ended, its part stays pending (it resolves when the plugin waits on it)
                     self.node.pays.iter_mut().filter(|p| p.id == pid).for_each(|p| p.running = false);
@@ -435,6 +465,20 @@ impl Session {
                             }
                             return;
                         }
+                    }
+                    if self.node.waitsendpay_result(k).is_none() && self.stuck.iter().any(|(h, at)| *h == self.node.parts[k].hash_hex && *at == "pay-drop-wait-drop") {
+                        // the part settles, but the connection carrying this waitsendpay dies too:
+                        // the plugin learns the outcome only by asking again
+                        let hx = self.node.parts[k].hash_hex.clone();
+                        if let Some(pre) = self.preimages.get(&hx).copied() {
+                            self.node.parts[k].status = PartStatus::Complete;
+                            self.node.parts[k].preimage = Some(pre);
+                        }
+                        for e in self.stuck.iter_mut().filter(|(h, _)| *h == hx) {
+                            e.1 = "pay-drop";
+                        }
+                        let _ = stream.shutdown(std::net::Shutdown::Both);
+                        return;
                     }
                     if self.node.waitsendpay_result(k).is_none() && self.stuck.iter().any(|(h, at)| *h == self.node.parts[k].hash_hex && *at == "pay-drop") {
                         let hx = self.node.parts[k].hash_hex.clone();
